@@ -408,7 +408,7 @@ def region(t, p):
     """Returns thermodynamic region corresponding to the given temperature and pressure,
     or None if out of bounds."""
 
-    if (0.01 <= t <= 800.) and (0. <= p <= 100.e6):
+    if (0.01 <= t <= 800.) and (0. < p <= 100.e6):
         if t <= 350.:
             return 1 if p > sat(t) else 2
         elif t <= 590.:
